@@ -1,0 +1,29 @@
+//go:build verif
+
+// Verification hook (add-only, compiled only with -tags verif): re-exports the
+// unexported flowtableExclusionManager constructor and workloadNeedsForwardHooks
+// so that the C41 correspondence harness under /verif can drive the REAL manager
+// with a mock IP sets dataplane.  Nothing here changes behaviour.
+
+package intdataplane
+
+import (
+	dpsets "github.com/projectcalico/calico/felix/dataplane/ipsets"
+	"github.com/projectcalico/calico/felix/proto"
+)
+
+// VerifC41Manager is what the harness needs from the exclusion manager.
+type VerifC41Manager interface {
+	OnUpdate(protoBufMsg any)
+	CompleteDeferredWork() error
+}
+
+// VerifC41NewFlowtableExclusionManager returns a real flowtableExclusionManager.
+func VerifC41NewFlowtableExclusionManager(ipsetsDP dpsets.IPSetsDataplane, ipVersion uint8, maxIPSetSize int) VerifC41Manager {
+	return newFlowtableExclusionManager(ipsetsDP, ipVersion, maxIPSetSize)
+}
+
+// VerifC41WorkloadNeedsForwardHooks calls the real workloadNeedsForwardHooks.
+func VerifC41WorkloadNeedsForwardHooks(wep *proto.WorkloadEndpoint) bool {
+	return workloadNeedsForwardHooks(wep)
+}
